@@ -267,53 +267,61 @@ func main() {
 	if remaining < 10 {
 		remaining = 10
 	}
-	rounds := (len(jobs) + par - 1) / par
-	per := int(remaining / float64(rounds))
-	if per < 3 {
-		per = 3
+	deadlineAll := time.Now().Add(time.Duration(remaining) * time.Second)
+	var jobsLeft int32 = int32(len(jobs))
+	var muLeft sync.Mutex
+	// each job's own deadline is fixed when it starts: the time left is shared by the
+	// rounds still to run, so shards that finish early leave their time to later ones
+	jobSecs := func() int {
+		muLeft.Lock()
+		defer muLeft.Unlock()
+		left := time.Until(deadlineAll).Seconds()
+		rounds := (int(jobsLeft) + par - 1) / par
+		if rounds < 1 {
+			rounds = 1
+		}
+		jobsLeft--
+		per := int(left / float64(rounds))
+		if per < 3 {
+			per = 3
+		}
+		return per
 	}
+	runJobs := func(list []*job, fixedSecs int) {
+		var wg sync.WaitGroup
+		sem := make(chan struct{}, par)
+		for i, j := range list {
+			wg.Add(1)
+			sem <- struct{}{}
+			go func(i int, j *job) {
+				defer wg.Done()
+				defer func() { <-sem }()
+				if fixedSecs > 0 {
+					j.secs = fixedSecs
+				} else {
+					j.secs = jobSecs()
+				}
+				j.err, j.out = "", nil
+				runJob(work, tier, i, j.plan, j.bin, j.variant, j.secs, &j.err, &j.out)
+			}(i, j)
+		}
+		wg.Wait()
+	}
+	runJobs(jobs, 0)
+	// second phase: shards that were cut off by their share of the time get what is left
+	var capped []*job
 	for _, j := range jobs {
-		j.secs = per
+		if j.err == "" && j.out != nil && !j.out.Report.Exhaustive && j.out.Report.Nondet == "" {
+			capped = append(capped, j)
+		}
 	}
-	var wg sync.WaitGroup
-	sem := make(chan struct{}, par)
-	for i, j := range jobs {
-		wg.Add(1)
-		sem <- struct{}{}
-		go func(i int, j *job) {
-			defer wg.Done()
-			defer func() { <-sem }()
-			outf := filepath.Join(work, fmt.Sprintf("out-%d.json", i))
-			args := []string{"-scenario", j.plan.Scenario, "-variant", j.variant, "-tier", tier,
-				"-pb", strconv.Itoa(j.plan.PB), "-db", strconv.Itoa(j.plan.DB), "-deadline", strconv.Itoa(j.secs), "-out", outf}
-			cmd := exec.Command(j.bin, args...)
-			cmd.Dir = work
-			cmd.Env = append(env(), "GOMAXPROCS=1", "GORACE=halt_on_error=0 log_path="+filepath.Join(work, fmt.Sprintf("race-%d", i)))
-			done := make(chan struct{})
-			var b []byte
-			var err error
-			go func() { b, err = cmd.CombinedOutput(); close(done) }()
-			select {
-			case <-done:
-			case <-time.After(time.Duration(j.secs+120) * time.Second):
-				cmd.Process.Kill()
-				<-done
-				j.err = "worker exceeded its deadline by 120 s and was killed (hang in a non-intercepted operation?)"
-				return
-			}
-			if err != nil {
-				j.err = fmt.Sprintf("worker failed: %v\n%s", err, tail(string(b), 4000))
-				return
-			}
-			var wo WorkerOut
-			if e := json.Unmarshal(mustRead(outf), &wo); e != nil {
-				j.err = "bad worker output: " + e.Error()
-				return
-			}
-			j.out = &wo
-		}(i, j)
+	if left := int(time.Until(deadlineAll).Seconds()); len(capped) > 0 && left >= 8 {
+		rounds := (len(capped) + par - 1) / par
+		if per := left / rounds; per >= 8 {
+			jobsLeft = 0
+			runJobs(capped, per)
+		}
 	}
-	wg.Wait()
 
 	// aggregate
 	known := Known{}
@@ -377,6 +385,9 @@ func main() {
 			samples = append(samples, map[string]interface{}{"scenario": j.plan.Scenario, "variant": j.variant, "execution": r.Samples[len(r.Samples)-1]})
 		}
 		for _, f := range r.Found {
+			if !strings.HasPrefix(f.Sig, prop+" ") {
+				continue // a verdict about another property (shared scenario): reported by that property's check
+			}
 			if what, ok := isKnown(f.Sig); ok {
 				if !knownPrinted[f.Sig] {
 					fmt.Printf("KNOWN-FINDING: property=%s %s [%s]\n", prop, what, f.Sig)
@@ -415,6 +426,12 @@ func main() {
 	if minPB == 1<<30 {
 		minPB = -1
 	}
+	boundKey := "preemption_bound_completed_all_variants"
+	rule := "every execution is the real (instrumented) implementation run under the controlled scheduler; states = distinct happens-before states; transitions = scheduler steps executed; a variant is one parameter combination of a scenario driver"
+	if pl[0].Kind == "seq" {
+		boundKey = "depth_completed_all_shards"
+		rule = "explicit-state BFS over operation sequences on real objects: every transition replays the history on a fresh implementation object and on the reference model; states = distinct canonical implementation states; a variant (shard) is one configuration x first operation"
+	}
 	ev := map[string]interface{}{
 		"property_id": prop,
 		"tier":        tier,
@@ -430,11 +447,11 @@ func main() {
 			"executions_pruned_by_state_cache": pruned,
 			"distinct_outcomes":                outcomes,
 			"variants":                         len(jobs),
-			"preemption_bound_completed_all_variants": minPB,
-			"caps_hit":                caps,
-			"per_scenario":            perScenario,
-			"rule":                    "every execution is the real (instrumented) implementation run under the controlled scheduler; states = distinct happens-before states; transitions = scheduler steps executed; a variant is one parameter combination of a scenario driver",
-			"known_findings_reported": len(knownPrinted),
+			boundKey:                           minPB,
+			"caps_hit":                         caps,
+			"per_scenario":                     perScenario,
+			"rule":                             rule,
+			"known_findings_reported":          len(knownPrinted),
 		},
 		"assumptions": pp.Assumptions,
 		"wall_s":      time.Since(start).Seconds(),
@@ -449,6 +466,37 @@ func main() {
 	if nviol > 0 {
 		os.Exit(1)
 	}
+}
+
+func runJob(work, tier string, i int, plan Plan, bin, variant string, secs int, jerr *string, jout **WorkerOut) {
+	outf := filepath.Join(work, fmt.Sprintf("out-%d-%d.json", i, time.Now().UnixNano()%1000000))
+	args := []string{"-scenario", plan.Scenario, "-variant", variant, "-tier", tier,
+		"-pb", strconv.Itoa(plan.PB), "-db", strconv.Itoa(plan.DB), "-deadline", strconv.Itoa(secs), "-out", outf}
+	cmd := exec.Command(bin, args...)
+	cmd.Dir = work
+	cmd.Env = append(env(), "GOMAXPROCS=1", "GORACE=halt_on_error=0 log_path="+filepath.Join(work, fmt.Sprintf("race-%d", i)))
+	done := make(chan struct{})
+	var b []byte
+	var err error
+	go func() { b, err = cmd.CombinedOutput(); close(done) }()
+	select {
+	case <-done:
+	case <-time.After(time.Duration(secs+120) * time.Second):
+		cmd.Process.Kill()
+		<-done
+		*jerr = "worker exceeded its deadline by 120 s and was killed (hang in a non-intercepted operation?)"
+		return
+	}
+	if err != nil {
+		*jerr = fmt.Sprintf("worker failed: %v\n%s", err, tail(string(b), 4000))
+		return
+	}
+	var wo WorkerOut
+	if e := json.Unmarshal(mustRead(outf), &wo); e != nil {
+		*jerr = "bad worker output: " + e.Error()
+		return
+	}
+	*jout = &wo
 }
 
 func max64(a, b int64) int64 {
